@@ -261,6 +261,12 @@ def fit_pcovr(j, label, X, Y, reg, regressor_obj=None, past=None, **kw):
     if past is not None:
         Xbuf = np.array(past.normal(size=X.shape) * max(float(np.abs(X).std()), 1e-300), order="C")
         Xbuf -= Xbuf.mean(axis=0)
+        # the earlier data are a sibling of the real ones: same shape, same column means, same column norms (two
+        # standardised tables look like that) - nothing but the numbers themselves tells them apart
+        cn_past, cn_real = np.linalg.norm(Xbuf, axis=0), np.linalg.norm(np.asarray(X, dtype=float), axis=0)
+        if np.all(cn_past > 0) and np.all(np.isfinite(cn_real)):
+            Xbuf *= cn_real / cn_past
+            j.note("earlier_data_with_the_same_shape_means_and_norms")
         Ybuf = np.array(np.asarray(Yfit, dtype=float), copy=True)
         if reg["kind"] not in ("precomputed", "precomputed_W"):
             Ybuf = past.normal(size=np.shape(Yfit)) * max(float(np.abs(np.asarray(Yfit)).std()), 1e-300)
